@@ -23,6 +23,28 @@ PROPS = {
                      "predicate truth for delete-where comes from the repository's expression evaluator on in-memory values (no lake, no pruner)",
                      "the exhaustive-short-histories half of the quantifier is enumeration, not simulation, and is not claimed"],
     ),
+    "C13": dict(
+        engine="lakesim", level="exploration",
+        budget_s=dict(quick=60, thorough=1500),
+        rule=("(a) one run = one seeded sequential history (<=10 ops, half of the runs with branch create/drop, merge, revert); after every op every earlier acknowledged "
+              "commit whose objects have not been vacuumed is re-read from a cold handle by commit id and must give the content recorded when it was acknowledged. "
+              "(b) reader/writer interleavings: see mode C13b. Non-trivial = at least one earlier commit was re-queried after a later op or a reader overlapped a writer; "
+              "distinct = distinct hash of all draws."),
+        real=REAL_LAKE, stub=STUB_LAKE,
+        assumptions=["content of a commit = the model content at acknowledgement (verified then against the objects, see C14)",
+                     "commits whose objects were explicitly vacuumed carry no obligation, as the statement says"],
+    ),
+    "C15": dict(
+        engine="lakesim", level="exploration",
+        budget_s=dict(quick=60, thorough=1500),
+        rule=("one run = one seeded history (<=16 ops) over main + up to 3 branches created at any commit (incl. empty), with loads/deletes/delete-where/compactions on any branch, "
+              "merges in any direction and reverts of any acknowledged commit; object-level model (parent U child-adds-since-ancestor - child-deletes-since-ancestor; "
+              "revert = inverse filtered by the tip); failed merge/revert must leave every branch untouched; all branches re-read cold after every op. "
+              "Non-trivial = at least one merge or revert was attempted; distinct = distinct hash of all draws."),
+        real=REAL_LAKE, stub=STUB_LAKE,
+        assumptions=["any merge may fail with an error provided the parent is left untouched (the statement allows conflict errors); successes are counted in reach_probes",
+                     "object contents are verified when first seen (C14 checks), the merge/revert model itself is at object level"],
+    ),
     "C18": dict(
         engine="streamsim", level="fault_enumeration",
         budget_s=dict(quick=40, thorough=1500),
